@@ -249,6 +249,26 @@ func genPayload(it WireItem) []byte {
 		sps := append([]byte{0x67}, bw.bytes()...)
 		pps := []byte{0x68, 0xeb, 0xe3, 0xcb, 0x22, 0xc0}
 		return media.AvcSeqHeaderPayload(sps, pps)
+	case "hevc_ps_cut":
+		// a well-formed HEVC configuration record whose VPS or SPS is cut short (ending on a one bit, i.e. on a complete
+		// exp-golomb zero): parsers must notice the end of the data
+		vps, sps, pps := media.HevcParamSets(9, 0)
+		cut := func(b []byte, at int) []byte {
+			if len(b) <= 3 {
+				return b
+			}
+			c := append([]byte{}, b[:2+at%(len(b)-2)]...)
+			if it.Shape%3 != 0 {
+				c[len(c)-1] |= 1
+			}
+			return c
+		}
+		if it.Shape%2 == 0 {
+			sps = cut(sps, n)
+		} else {
+			vps = cut(vps, n)
+		}
+		return media.HevcSeqHeaderPayload(vps, sps, pps)
 	case "nal_types":
 		// well-framed AVCC / HVCC lists of tiny NAL units whose first byte runs over every NAL type (aggregation and
 		// fragmentation types of the RTP payload formats included), 1..4 bytes each
